@@ -37,7 +37,7 @@ pub struct PropDef {
     pub watchdog: fn(Tier) -> u64,
 }
 
-fn verif_dir() -> PathBuf {
+pub fn verif_dir() -> PathBuf {
     std::env::var("VERIF_DIR").map(PathBuf::from).unwrap_or_else(|_| PathBuf::from("/verif"))
 }
 
